@@ -316,6 +316,8 @@ func GetParam(ctx *Task, expr *ast.CallExpr, params []*Param, i int) (any, *errc
 			if errReg != nil {
 				return nil, NewRunError(ctx, errReg.Error(), p.StartPos())
 			}
+			// the argument's value has been consumed: it must not be taken for the call's own result
+			ctx.Regs.Reset()
 			ret = append(ret, v.V)
 		}
 		return ret, nil
@@ -336,6 +338,8 @@ func GetParam(ctx *Task, expr *ast.CallExpr, params []*Param, i int) (any, *errc
 		if errReg != nil {
 			return nil, NewRunError(ctx, errReg.Error(), expr.ParamNormalized[i].StartPos())
 		}
+		// the argument's value has been consumed: it must not be taken for the call's own result
+		ctx.Regs.Reset()
 		return v.V, nil
 	}
 }
